@@ -25,6 +25,33 @@ def expand_obj(p):
     return pyconv.to_py(full(p))
 
 
+def pp_obj(x, tab):
+    k = x[0]
+    if k == 'evar':
+        return P.EVar(int(x[1]))
+    if k == 'svar':
+        return P.SVar(int(x[1]))
+    if k == 'sym':
+        return P.Symbol(x[1])
+    if k == 'imp':
+        return P.Implies(pp_obj(x[1], tab), pp_obj(x[2], tab))
+    if k == 'app':
+        return P.App(pp_obj(x[1], tab), pp_obj(x[2], tab))
+    if k == 'ex':
+        return P.Exists(int(x[1]), pp_obj(x[2], tab))
+    if k == 'mu':
+        return P.Mu(int(x[1]), pp_obj(x[2], tab))
+    if k == 'mv':
+        return P.MetaVar(int(x[1]))
+    if k == 'esub':
+        return P.ESubst(pp_obj(x[1], tab), P.EVar(int(x[2])), pp_obj(x[3], tab))
+    if k == 'ssub':
+        return P.SSubst(pp_obj(x[1], tab), P.SVar(int(x[2])), pp_obj(x[3], tab))
+    if k == 'napp':
+        return tab[int(x[1])](*[pp_obj(a, tab) for a in x[2:]])
+    raise ValueError(x)
+
+
 def out_subst(r):
     if r is None:
         return 'none'
@@ -131,6 +158,28 @@ def handle(cmd, args):
         if not (n(*r) == app):
             return '(false rebuilt-not-==)'
         return 'true'
+    if cmd == 'pretty':
+        from harness.py import notation_table
+        tab = [n for _, n in notation_table.table()]
+        opts = P.PrettyOptions(notations=frozendict({n.definition: n for n in tab}))
+        return 's:' + pp_obj(args[0], tab).pretty(opts)
+    if cmd == 'law-pretty-shows':
+        # two applications of notation IDX whose argument tuples differ exactly at position i:
+        # if they denote different patterns and the two arguments print differently, the applications print differently
+        from harness.py import notation_table
+        tab = [n for _, n in notation_table.table()]
+        opts = P.PrettyOptions(notations=frozendict({n.definition: n for n in tab}))
+        n = tab[int(args[0])]
+        i = int(args[1])
+        A = [pp_obj(a, tab) for a in args[2]]
+        B = list(A)
+        B[i] = pp_obj(args[3], tab)
+        pa, pb = n(*A), n(*B)
+        if full(pa) == full(pb):
+            return 'same-denotation'
+        if A[i].pretty(opts) == B[i].pretty(opts):
+            return 'args-print-equal'
+        return 'true' if pa.pretty(opts) != pb.pretty(opts) else '(false %s)' % pa.pretty(opts).replace(' ', '_').replace('(', '[').replace(')', ']')
     if cmd == 'match':
         ext = nmap(args[2])
         r = P.match_single(npat(args[0]), npat(args[1]), dict(ext))
